@@ -304,3 +304,58 @@ def r14_5(ctx):
         sym = h.params[1]
         ok = any(isinstance(st, ast.Assign) and ast.unparse(st.targets[0]) == "self._scale[%s]" % sym and ast.unparse(st.value) == "self._parse_scale(%s, scale)" % sym for st in walk_no_nested(h.node))
         ctx.check(ok, "Stage.%s records the scale under its own symbol" % reg, detail="scale recorded for another symbol", expected="self._scale[%s] = self._parse_scale(%s, scale)" % (sym, sym), found="", fi=h)
+
+
+@rule("R14.6", min_instances=10, desc="every site that imposes declared constraints - a loop over stage._constraints[<grid>] in any method class - hands the declaration's scale to Opti (directly, or through the helper it calls); a loop that discards the declaration's options drops the scale")
+def r14_6(ctx):
+    """D85: DirectMethod.transcribe (point constraints of a stage without a method: the stitching constraints of a multi-stage OCP)
+    and the grid='inf' path of the three sampling methods discarded the options; D86 (known): SplineMethod still does."""
+    P = ctx.prog
+    total = 0
+    for cname in sorted(P.subclasses("DirectMethod")):
+        for f in P.cls(cname).methods.values():
+            for l in walk_no_nested(f.node):
+                if not (isinstance(l, ast.For) and isinstance(l.iter, ast.Subscript) and ast.unparse(l.iter.value).endswith("._constraints") and isinstance(l.iter.slice, ast.Constant)):
+                    continue
+                grid = l.iter.slice.value
+                subs = [c for c in ast.walk(l) if isinstance(c, ast.Call) and isinstance(c.func, ast.Attribute) and c.func.attr == "subject_to"]
+                relays = [c for c in ast.walk(l) if isinstance(c, ast.Call) and isinstance(c.func, ast.Attribute) and c.func.attr.startswith("add_") and "constraint" in c.func.attr
+                          and ast.unparse(c.func.value) == f.params[0]]
+                deferred = False
+                if not subs and not relays:
+                    # the loop only collects (SplineMethod lumps constraints and imposes them afterwards): the function's own
+                    # subject_to calls are the imposing sites, the scale has to be read inside the collecting loop
+                    later = [c for c in walk_no_nested(f.node) if isinstance(c, ast.Call) and isinstance(c.func, ast.Attribute) and c.func.attr == "subject_to"]
+                    stores = [x for x in ast.walk(l) if isinstance(x, ast.Call) and isinstance(x.func, ast.Attribute) and x.func.attr in ("append", "add", "extend")]
+                    if not later or not stores:
+                        continue          # e.g. a scan for the refine option: nothing is imposed here
+                    deferred = True
+                total += 1
+                opts = l.target.elts[2].id if isinstance(l.target, ast.Tuple) and len(l.target.elts) == 3 and isinstance(l.target.elts[2], ast.Name) else None
+                label = "%s.%s imposes the %s constraints with their declared scale" % (cname, f.name, grid)
+                if opts is None or opts == "_":
+                    ctx.fail(label, detail="the options of the declaration (scale=) are discarded: the constraint reaches Opti unscaled", expected="for c, meta, args in ...: subject_to(.., scale=args['scale'], ..)",
+                             found="for %s in %s" % (ast.unparse(l.target), ast.unparse(l.iter)), fi=f, node=l)
+                    continue
+                want = "%s['scale']" % opts
+                if deferred:
+                    ok = want in ast.unparse(l).replace('"', "'")
+                    ctx.check(ok, label, detail="the constraints are lumped and imposed without their declared scale", expected="%s read where the constraint is collected (lb, expression and ub divided by it)" % want,
+                              found="scale never read in the loop", fi=f, node=l)
+                    continue
+
+                def carries(c):
+                    return any(ast.unparse(a).replace('"', "'") == want for a in c.args[1:2]) or any(k.arg == "scale" and want in ast.unparse(k.value).replace('"', "'") for k in c.keywords)
+                ok = all(carries(c) for c in subs) and all(carries(c) or any(ast.unparse(a) == opts for a in c.args) for c in relays)
+                # a relay must itself hand its scale parameter on
+                for c in relays:
+                    h = P.resolve(cname, c.func.attr)
+                    if h is not None and "scale" in h.params:
+                        inner = [x for x in walk_no_nested(h.node) if isinstance(x, ast.Call) and isinstance(x.func, ast.Attribute) and x.func.attr == "subject_to"]
+                        ok = ok and bool(inner) and all(any(k.arg == "scale" and ast.unparse(k.value) == "scale" for k in x.keywords) or (len(x.args) > 1 and ast.unparse(x.args[1]) == "scale") for x in inner)
+                    elif h is not None:
+                        ok = False
+                ctx.check(ok, label, detail="the constraint reaches Opti without (or with another) scale", expected="scale=%s at every subject_to / relay of the loop" % want,
+                          found="; ".join(ast.unparse(c)[:70] for c in subs + relays), fi=f, node=l)
+    if total < 10:
+        raise AnalysisError("R14.6: only %d constraint-imposing loops found (expected >= 10)" % total)
